@@ -55,6 +55,10 @@ func run(prop string) {
 			runForeignClose()
 			return
 		}
+		if prop == "C17" && simrt.Chance(1, 8, "open-races-upstream-loss") {
+			runOpenRacesUpstreamLoss()
+			return
+		}
 		if (prop == "C16" || prop == "C03") && simrt.Chance(1, 10, "late-ack-after-relay-loss") {
 			runLateAckAfterRelayLoss(prop)
 			return
